@@ -445,7 +445,20 @@ pub fn run_case(c: &Sexp) -> Sexp {
                     Err(_) => err(),
                 }
             });
-            Sexp::tag("obs", vec![schema_to_sexp(&schema), dec, valid, reenc, redec, deser])
+            // the same bytes read into a target that keeps nothing (serde::de::IgnoredAny): skipping a
+            // datum must still find all of it
+            let ignored = guarded(|| {
+                let r = match GenericDatumReader::builder(&schema).build() {
+                    Ok(r) => r,
+                    Err(_) => return Sexp::tag("reader-err", vec![]),
+                };
+                let mut slice = &input[..];
+                match r.read_deser::<serde::de::IgnoredAny>(&mut slice) {
+                    Ok(_) => ok(vec![Sexp::hex(slice)]),
+                    Err(_) => err(),
+                }
+            });
+            Sexp::tag("obs", vec![schema_to_sexp(&schema), dec, valid, reenc, redec, deser, ignored])
         }
         // (vw #schema-json VALUE) -> (obs SCHEMA VALUE valid01 RESOLVE DATUM DEC SO CONTAINER)
         //   validation, resolution, and the three validating write paths on one value
